@@ -278,7 +278,7 @@ def u2_files(sc, root: str) -> dict:
         mod = ".".join([root, sid, "sub", "deep", nm["m1"]] if e["tgt"] == 1 or sc.get("variant") == "sharedbase" else [root, sid, "sub", nm["m2"]])
         line = f"from {mod} import {nm.get(e['tgt'], 'x')}" + (f" as {e['alias']}{s}" if e["alias"] else "") + "\n"
         if sc.get("variant") == "stdlibname":      # the standard library's module, not the package's
-            line = "import logging\n"
+            line = f"import logging\nfrom logging import {nm[2]}\n"      # (a name the standard library's module does not have; the import is what matters)
         if sc.get("variant") == "samemodule":      # the module as a whole
             line = f"from {'.'.join([root, sid, 'sub', 'deep'])} import {nm['m1']}\n"
         if sc.get("variant") == "samemoduleboth":  # both modules as a whole, each under an alias of its own
